@@ -55,6 +55,18 @@ try:
 except Exception as e:
     import traceback; traceback.print_exc()
     print("harness raised", type(e).__name__, e)
+    # an exception raised by chartparse code is a deviation of the code under test; one raised by the
+    # harness itself (a private name it drives no longer exists, a stub used outside its contract)
+    # means the harness cannot judge this tree: exit 2 (inconclusive), never an alarm
+    tb = e.__traceback__
+    last = None
+    while tb is not None:
+        last = tb.tb_frame.f_code.co_filename
+        tb = tb.tb_next
+    in_repo = last is not None and os.path.realpath(last).startswith(os.path.realpath(REPO) + os.sep)
+    if not in_repo:
+        print("CANNOT-JUDGE: the exception comes from the harness, not from chartparse:", last)
+        sys.exit(2)
     bad = True
 print("REPRODUCED" if bad else "NOT-REPRODUCED", {r["name"]!r}, {r.get("call", "")!r})
 sys.exit(1 if bad else 0)
